@@ -141,7 +141,7 @@ CHECKS = {
         note="One spelling per AST node (layout variation is C13); the projection code in harness/src/canon.rs is trusted.",
         technique="TLA+ abstract-syntax universe with canonical projection, TLC-enumerated, compared with the real parser's model"),
     "C09": dict(
-        category="model_checking",
+        category="exploration",
         text="Names.tla specifies the generator's identifier automata (field / module, constant, variant / type name, the generator's second "
              "variant automaton and both keyword escapes); TLC checks on every valid ASN.1 identifier up to the length bound plus every Rust "
              "keyword and spelling variants that the outputs are legal non-keyword Rust identifiers, and computes the collision classes; the "
